@@ -4,6 +4,8 @@ import DoltVerif.Lemmas.BranchControlAccess
 import DoltVerif.Lemmas.BranchControlFold
 import DoltVerif.Lemmas.BranchControlFoldLike
 import DoltVerif.Lemmas.BranchControlNs
+import DoltVerif.Lemmas.BranchControlTrie
+import DoltVerif.Lemmas.BranchControlTrieOps
 /-!
 C38 — Branch permissions follow the rule table's documented matching.  Property theorems only
 (helper lemmas live in `Lemmas/BranchControl*.lean`).  Statements are about
@@ -194,50 +196,126 @@ theorem flat_match_raw (so : Rune → Int) (hso : ∀ r, 0 ≤ so r) (raws : Lis
   rw [← hr]
   exact folded_has_no_any_pairs so hso raw
 
-/-! ## 4. the trie (statements; see `design/C38.md` — not proved, compared exhaustively by the harness) -/
+/-! ## 4. the trie: `Add` / `Remove` / `Match` against the rule table -/
 
 inductive TrieOp where
   | add (key : List Int) (d : Data)
   | remove (key : List Int)
 
-def runOps (ops : List TrieOp) : Node :=
-  ops.foldl (fun t op => match op with
-    | .add k d => t.add k d
-    | .remove k => (t.remove k).1) (.mk [columnMarker] [] none)
-
-/-- the rule table the operations leave behind: later additions overwrite, removals delete -/
-def finalRules (ops : List TrieOp) : List (List Int × Data) :=
-  ops.foldl (fun rs op => match op with
-    | .add k d => (rs.filter (fun kd => kd.1 != k)) ++ [(k, d)]
-    | .remove k => rs.filter (fun kd => kd.1 != k)) []
-
 def TrieOp.key : TrieOp → List Int
   | .add k _ => k
   | .remove k => k
+
+def applyOp (t : Node) : TrieOp → Node
+  | .add k d => t.add k d
+  | .remove k => (t.remove k).1
+
+def applyRule (rs : List (List Int × Data)) : TrieOp → List (List Int × Data)
+  | .add k d => (rs.filter (fun kd => kd.1 != k)) ++ [(k, d)]
+  | .remove k => rs.filter (fun kd => kd.1 != k)
+
+def runOps (ops : List TrieOp) : Node := ops.foldl applyOp (.mk [columnMarker] [] none)
+
+/-- the rule table the operations leave behind: later additions overwrite, removals delete -/
+def finalRules (ops : List TrieOp) : List (List Int × Data) := ops.foldl applyRule []
+
+theorem run_inv_aux : ∀ (ops : List TrieOp) (t : Node) (rs : List (List Int × Data)),
+    (∀ op ∈ ops, op.key.head? = some columnMarker) →
+    wfN t = true → t.so.head? = some columnMarker → (∀ K x, (K, x) ∈ rulesN t ↔ (K, x) ∈ rs) →
+    wfN (ops.foldl applyOp t) = true ∧
+    (∀ K x, (K, x) ∈ rulesN (ops.foldl applyOp t) ↔ (K, x) ∈ ops.foldl applyRule rs) := by
+  intro ops
+  induction ops with
+  | nil => intro t rs _ hw _ hr; exact ⟨hw, hr⟩
+  | cons op ops ih =>
+    intro t rs hk hw hh hr
+    have hk' : ∀ op ∈ ops, op.key.head? = some columnMarker := fun o ho => hk o (by simp [ho])
+    have hko := hk op (by simp)
+    simp only [List.foldl_cons]
+    cases op with
+    | add k d =>
+      simp only [TrieOp.key] at hko
+      have hne : k ≠ [] := by intro e; rw [e] at hko; simp at hko
+      obtain ⟨h1, h2, h3⟩ := add_spec t k d hw hne (by rw [hh, hko])
+      apply ih _ _ hk' h1 (by rw [h2]; exact hh)
+      intro K x
+      rw [h3 K x]
+      simp only [applyRule, List.mem_append, List.mem_filter, List.mem_singleton, Prod.mk.injEq, bne_iff_ne, ne_eq, hr]
+      constructor
+      · rintro (⟨rfl, rfl⟩ | ⟨hne, hm⟩)
+        · exact Or.inr ⟨rfl, rfl⟩
+        · exact Or.inl ⟨hm, hne⟩
+      · rintro (⟨hm, hne⟩ | ⟨rfl, rfl⟩)
+        · exact Or.inr ⟨hne, hm⟩
+        · exact Or.inl ⟨rfl, rfl⟩
+    | remove k =>
+      obtain ⟨h1, h2, h3⟩ := remove_spec t k hw hh
+      apply ih _ _ hk' h1 h2
+      intro K x
+      rw [h3 K x]
+      simp only [applyRule, List.mem_filter, bne_iff_ne, ne_eq, hr]
+      exact ⟨fun h => ⟨h.2, h.1⟩, fun h => ⟨h.2, h.1⟩⟩
+
+/-- **`Add`/`Remove` implement the rule table**: after any history (keys as `parseExpression`
+produces them: starting with a column marker) the trie is well formed and stores exactly the final
+rule table. -/
+theorem trie_stores_final_rules (ops : List TrieOp) (hk : ∀ op ∈ ops, op.key.head? = some columnMarker) :
+    wfN (runOps ops) = true ∧ ∀ K x, (K, x) ∈ rulesN (runOps ops) ↔ (K, x) ∈ finalRules ops :=
+  run_inv_aux ops _ [] hk (by simp [wfN, wfL]) rfl (by intro K x; simp [rulesN, rulesL])
 
 /-- the direct, per-rule match: the same token-level matcher run on the rule alone -/
 def directMatch (kd : List Int × Data) (tokens : List Int) : List (Data × Nat) :=
   Node.matchTokens (.mk kd.1 [] (some kd.2)) tokens
 
-/-- `trie_eq_direct` + `trie_order_independent` at full strength: after *any* sequence of `Add` /
-`Remove` (keys as produced by `parseExpression`, i.e. starting with a column marker), the trie
-reports exactly the (data, length) pairs the direct per-rule match reports over the final rule
-table (as sets: the trie may report a pair more than once).  Since the right-hand side depends only
-on the final rule table, every insert/delete order with the same final table gives the same
-answers. -/
+/-- **`trie_eq_direct`** (partial: see `trie_eq_direct_full`): after any `Add`/`Remove` history whose
+trie has no bare `[%]` child, the trie reports exactly the (data, length) pairs of the per-rule
+direct match over the final rule table (as sets). -/
+theorem trie_eq_direct_partial (ops : List TrieOp) (hk : ∀ op ∈ ops, op.key.head? = some columnMarker)
+    (hna : noAnyLeafN (runOps ops) = true) (tokens : List Int) (r : Data × Nat) :
+    r ∈ (runOps ops).matchTokens tokens ↔ ∃ kd ∈ finalRules ops, r ∈ directMatch kd tokens := by
+  obtain ⟨hw, hr⟩ := trie_stores_final_rules ops hk
+  rw [trie_match_eq_direct _ hw hna]
+  constructor
+  · rintro ⟨kd, hkd, h⟩; exact ⟨kd, (hr kd.1 kd.2).mp hkd, h⟩
+  · rintro ⟨kd, hkd, h⟩; exact ⟨kd, (hr kd.1 kd.2).mpr hkd, h⟩
+
+/-- **`trie_order_independent`** (partial, same side condition): two histories that leave the same
+rule table give the same answers to every request. -/
+theorem trie_order_independent_partial (ops₁ ops₂ : List TrieOp)
+    (hk₁ : ∀ op ∈ ops₁, op.key.head? = some columnMarker) (hk₂ : ∀ op ∈ ops₂, op.key.head? = some columnMarker)
+    (hsame : ∀ kd, kd ∈ finalRules ops₁ ↔ kd ∈ finalRules ops₂)
+    (hna₁ : noAnyLeafN (runOps ops₁) = true) (hna₂ : noAnyLeafN (runOps ops₂) = true)
+    (tokens : List Int) (r : Data × Nat) :
+    r ∈ (runOps ops₁).matchTokens tokens ↔ r ∈ (runOps ops₂).matchTokens tokens := by
+  rw [trie_eq_direct_partial ops₁ hk₁ hna₁, trie_eq_direct_partial ops₂ hk₂ hna₂]
+  constructor
+  · rintro ⟨kd, hkd, h⟩; exact ⟨kd, (hsame kd).mp hkd, h⟩
+  · rintro ⟨kd, hkd, h⟩; exact ⟨kd, (hsame kd).mpr hkd, h⟩
+
+/-- the full-strength statement, without the side condition — **false** of the code -/
 def trie_eq_direct_full : Prop :=
   ∀ (ops : List TrieOp) (tokens : List Int) (r : Data × Nat),
     (∀ op ∈ ops, op.key.head? = some columnMarker) →
     (r ∈ (runOps ops).matchTokens tokens ↔ ∃ kd ∈ finalRules ops, r ∈ directMatch kd tokens)
 
-/-- a test (not a proof) of the statement above on one history with a split, an overwrite, a
-removal with merge, and a `%` that must not cross a column -/
+/-- witness (known finding `trailing-any-at-node-end`): rules `|h` and `|h%`, request `|h` — the
+direct match of `|h%` succeeds (the `%` matches the empty rest) but the trie, whose `%` sits in a
+child of the exhausted node, does not report it. -/
+theorem trie_eq_direct_full_refuted : ¬ trie_eq_direct_full := by
+  intro h
+  have := (h [.add [columnMarker, 5] ⟨2, 0⟩, .add [columnMarker, 5, anyMatch] ⟨1, 1⟩] [columnMarker, 5] (⟨1, 1⟩, 3)
+    (by decide)).mpr ⟨([columnMarker, 5, anyMatch], ⟨1, 1⟩), by decide, by decide⟩
+  revert this
+  decide
+
+/-- the hypotheses are satisfiable: a history with a split, an overwrite and a removal with merge,
+whose trie has no bare `[%]` child -/
 example :
     let ops := [TrieOp.add [-3, 5, -3, -2, -3, 7, -3, -2] ⟨2, 0⟩, .add [-3, 5, -3, 6, -2, -3, 7, -3, -2] ⟨1, 1⟩,
                 .add [-3, 5, -3, 6, -3, 7, -3, -2] ⟨4, 2⟩, .remove [-3, 5, -3, 6, -3, 7, -3, -2],
                 .add [-3, 5, -3, -2, -3, 7, -3, -2] ⟨8, 3⟩]
-    (runOps ops).matchTokens [-3, 5, -3, 6, 6, -3, 7, -3, 9] = [(⟨8, 3⟩, 8), (⟨1, 1⟩, 9)] ∧
-    (finalRules ops).flatMap (fun kd => directMatch kd [-3, 5, -3, 6, 6, -3, 7, -3, 9]) = [(⟨1, 1⟩, 9), (⟨8, 3⟩, 8)] := by
+    noAnyLeafN (runOps ops) = true ∧
+    (runOps ops).matchTokens [-3, 5, -3, 6, 6, -3, 7, -3, 9] = [(⟨8, 3⟩, 8), (⟨1, 1⟩, 9)] := by
   decide
 
 /-! ## 5. `Namespace.CanCreate` -/
